@@ -68,6 +68,7 @@ fn main() {
   let code = match prop.as_str() {
     "C02" => vprop::c02::run(&cfg),
     "C03" => vprop::c03::run(&cfg),
+    "C05" => vprop::c05::run(&cfg),
     "C10" => vprop::c10::run(&cfg),
     "C19" => vprop::c19::run(&cfg),
     _ => {
